@@ -390,17 +390,24 @@ def run(ctx):
     restart_specs = [(2, 40, 24, RGB, 0, 90, 21, 0, -1, 16), (5, 48, 32, RGB, 2, 85, 22, 0, -1, 16 | 2), (2, 32, 32, GRAY, 3, 95, 23, 0, -1, 512),
                      (2, 40, 24, RGB, 0, 90, 24, 0, -1, 16 | 1), (2, 40, 24, RGB, 0, 90, 25, 0, -1, 16 | 4), (2, 32, 24, RGB, 0, 90, 26, 0, -1, 8 | 512),
                      (2, 40, 32, RGB, 1, 90, 27, 0, 5, 16), (2, 48, 16, GRAY, 3, 100, 28, 300, -1, 16)]
-    specs = specs + hostile + restart_specs
+    # operations with ICC profiles (one chunk, chunk boundary 65519/65520, two chunks) for the marker-boundary stream
+    icc_specs = [(1, 40, 24, RGB, 1, 50, 5, 300, -1, 0), (5, 24, 16, GRAY, 3, 80, 31, 1, -1, 0), (1, 16, 16, RGB, 2, 75, 32, 65519, -1, 0),
+                 (1, 16, 16, RGB, 2, 75, 33, 65520, -1, 0), (5, 32, 16, RGB, 0, 90, 34, 3000, 0, 64), (5, 32, 16, RGB, 0, 90, 35, 2000, 5, 0)]
+    specs = specs + hostile + restart_specs + [x for x in icc_specs if x not in specs]
     rc, out, err = run_lines(exes["simd"], ["size " + spec_str(s) for s in specs])
     sized = []
     sos_of = {}
     rst_of = {}
+    seg_of = {}
     for s, o in zip(specs, out):
         m = re.match(r"size (\d+) dec=(\w+)(?: sos=(\d+))?(?: rst=([\d,]*))?", o)
         if m and m.group(3):
             sos_of[s] = int(m.group(3))
         if m and m.group(4):
             rst_of[s] = [int(x) for x in m.group(4).split(",") if x]
+        mseg = re.search(r" seg=([\d,]+)", o)
+        if mseg:
+            seg_of[s] = [int(x) for x in mseg.group(1).split(",") if x]
         if m and int(m.group(1)) > 0:
             if m.group(2) != "ok":
                 ctx.violation("library output does not decode: " + spec_str(s), {"lines": ["size " + spec_str(s)], "impl": o},
@@ -479,6 +486,41 @@ def run(ctx):
             r_lines.append("hist tjx ; A %d 0 ; J 1 %d %s ; F" % (c, n, spec_str(rs)))
         r_lines.append("hist tjx ; J 1 %d %s ; F" % (n, spec_str(rs)))
     nr = run_stream(ctx, "R", r_lines, drv, exes, 3)
+    # ---- M: a growth boundary / the end of the caller's buffer exactly on, just before and just behind the end of every
+    #         header segment (SOI, JFIF, every ICC APP2 chunk, DQT, SOF, DHT, SOS header) and the end of the file: every c
+    #         with c*2^k in {e-1, e, e+1}, NOREALLOC and realloc -- a writer that fills the buffer exactly must still empty it
+    m_lines = []
+    for ms in icc_specs + restart_specs[:2] + [specs[0], specs[2]]:
+        if ms not in sizes or ms not in seg_of:
+            continue
+        n = sizes[ms]
+        caps = set()
+        for e in seg_of[ms] + [n - 2, n]:
+            for t in (e - 1, e, e + 1):
+                while t >= 1:
+                    caps.add(t)
+                    if t % 2:
+                        break
+                    t //= 2
+        caps = sorted(c for c in caps if 1 <= c <= n + 2)
+        if not ctx.thorough() and len(caps) > 70:
+            # keep the exact hits (c*2^k == e) and sample the neighbours
+            exact = set()
+            for e in seg_of[ms]:
+                t = e
+                while t >= 1:
+                    exact.add(t)
+                    if t % 2:
+                        break
+                    t //= 2
+            rest = [c for c in caps if c not in exact]
+            caps = sorted(exact | set(rng.shuffle(rest)[:max(0, 70 - len(exact))]))
+        for c in caps:
+            m_lines.append("hist tjx ; A %d 0 ; J %d %d %s ; F" % (c, c & 1, n, spec_str(ms)))
+            if c in seg_of[ms] or (2 * c) in seg_of[ms]:
+                m_lines.append("hist tjx ; A %d 0 ; J %d %d %s ; F" % (c, 1 - (c & 1), n, spec_str(ms)))
+    nm = run_stream(ctx, "M", m_lines, drv, exes, 3)
+    ctx.cov["marker_boundary_capacities"] = len(m_lines)
     ctx.cov["restart_marker_capacities"] = len(r_lines)
     # ---- S: jpeg_mem_dest re-armed on the same object with the SAME pointer value after the caller shrank the block
     #         in place (free + smaller allocation at the same address: canary / poisoned tail behind it): the granted
@@ -497,7 +539,7 @@ def run(ctx):
     nd = run_stream(ctx, "D", d_lines, drv, exes, 3, ncorpus=ncd)
     ni = run_stream(ctx, "I", i_lines, drv, exes, 3, ncorpus=nci)
     nt = run_stream(ctx, "T", t_lines, drv, exes, 4, ncorpus=nct)
-    ctx.cov["traces_validated_against_impl"] = nd + ni + nt + nh + ns + nr if drv else 0
+    ctx.cov["traces_validated_against_impl"] = nd + ni + nt + nh + ns + nr + nm if drv else 0
 
     # ---- K: the longest codes a table can have (lengths 1..16, code 1111111111111110 for the top category) on
     #         coefficients of maximal magnitude at 8- and 12-bit precision through jpeg_write_coefficients: the block
